@@ -246,7 +246,7 @@ func loadMaps(g *lookup) {
 
 func loadStrconv(g *VM) {
 	g.Set("strconv.ParseFloat", NewFunc(2, 2, func(vm *VM, args []Value) []Value {
-		res, err := strconv.ParseFloat(args[0].String(), args[0].Int())
+		res, err := strconv.ParseFloat(args[0].String(), args[1].Int())
 		if err != nil {
 			return []Value{Float64(res), Error(err)} // like Go: +-Inf accompanies a range error
 		}
